@@ -15,4 +15,7 @@ def run(rep, fb, tier):
     builder.rule_arraybuilder_update(rep, fb)
     pyrules.rule_py_dispatch(rep, modules=["_connect/_numba/arrayview.py", "_connect/_numba/layout.py", "_connect/_numba/builder.py", "_connect/_numba/__init__.py"], floor=10)
     pyrules.rule_py_categories(rep)
+    from ..rules import pybind as _pb, pyrules as _pr2
+    _pb.rule_py_bindings(rep)
+    _pr2.rule_py_call_signature(rep)
     rep.units = fb.units + ["src/awkward/_connect/_numba/*.py, _libawkward.py (ast)"]
